@@ -4,7 +4,10 @@
 //!   verif-replay bounded <PROPERTY>             -> exhaustive bounded cross-checks (thorough tier), prints counts
 mod oracle;
 use oracle::*;
+use pkgsrc::plist::{Plist, PlistEntry};
 use pkgsrc::{Dewey, Pattern, PkgName};
+use std::ffi::OsString;
+use std::os::unix::ffi::{OsStrExt, OsStringExt};
 use std::collections::BTreeMap;
 
 struct Rng(u64);
@@ -261,7 +264,16 @@ fn search_c04(r: &mut Rng, la: bool, iters: usize) -> bool {
     if !ok {
         return false;
     }
-    let frag = ["a", "b", "{", "}", ",", "{a,b}", "{,x}", "-1.0", ">=1", "<2", "-[0-9]*", "{b,c}", "pkg", "d", "-", "1", "*"];
+    for p in ["foo-{1.0,[0-9}", "foo{>=1,<1>0}", "{[,a}-{1.0,2.0}", "foo{-client,}-1.0", "py{39,310,}-sphinx>=4<8", "{a{b,},c}-1.0", "foo{}-1.0", "{,*-}curl-[0-9]*",
+              "{mysql,mariadb}-[0-9]*", "a-{b,c}-{d{e,f},g}-h>=1", "{a{b,c},d}-1.0"] {
+        for n in ["foo-1.0", "foo-1.5", "a-1.0", "foo-client-1.0", "py-sphinx-5.0", "py39-sphinx-5.0", "c-1.0", "ab-1.0", "ad-1.0", "d-1.0", "py312-curl-7.45", "curl-7.45",
+                  "mysql-8.0", "a-b-de-h-2", "a-c-g-h-2", "a-b-d-h-2", "ac-1.0"] {
+            if !check_pattern(p, n, la) {
+                return false;
+            }
+        }
+    }
+    let frag = ["a", "b", "{", "}", ",", "{a,b}", "{,x}", "-1.0", ">=1", "<2", "-[0-9]*", "{b,c}", "pkg", "d", "-", "1", "*", "[0-9", "<1>0", "{a,}", "{}"];
     let names = ["ad-1.0", "ab-1.0", "ac-1.0", "d-1.0", "pkg-1.0", "a-1", "b-1", "pkgb-1.0", "x-1.0", "ab", "a", ""];
     for _ in 0..iters {
         let mut p = String::new();
@@ -286,7 +298,18 @@ fn search_c04(r: &mut Rng, la: bool, iters: usize) -> bool {
     true
 }
 
+const DICT_PATS: &[&str] = &["foo-[0-9]*", "mutt-[0-9]*", "py-foo-[0-9]*", "*ssl-[0-9]*", "[a-f]oo-[0-9]*", "?oo-1*", "foo-1.[0-9]*", "foo-[0123456789]*",
+    "f*-[0-9]*", "foo-*", "foo*", "[!f]oo-[0-9]*", "foo-1.0", "fo?-[0-9]*", "foo-[0-9]*-rc?"];
+const DICT_NAMES: &[&str] = &["foo-1.0", "foo-1.0-rc1", "foo-2-3", "foo-bar-1.0", "openssl-3.3.1", "mutt-2.2.13-20240101", "py-foo-1.0-2", "goo-1.0", "foo-", "foo",
+    "fo", "f", "", "boo-1.0", "fxo-1.0", "foo-x1", "mutt-vid-1.1", "foo-1.0nb2"];
 fn search_c05(r: &mut Rng, la: bool, iters: usize) -> bool {
+    for p in DICT_PATS {
+        for n in DICT_NAMES {
+            if !check_pattern(p, n, la) {
+                return false;
+            }
+        }
+    }
     let frag = ["a", "b", "ab", "-", "*", "?", "[ab]", "[!a]", "[a-c]", "[0-9]", "1", ".", "x", "-1", "[!0-9]", "B"];
     let nfrag = ["a", "b", "ab", "-", "1", ".", "x", "c", "B", "", "0", "9"];
     for _ in 0..iters {
@@ -427,6 +450,141 @@ fn search_c18(r: &mut Rng, la: bool, iters: usize) -> bool {
     true
 }
 
+fn hex(b: &[u8]) -> String {
+    b.iter().map(|x| format!("{:02x}", x)).collect()
+}
+fn gen_plist_line(r: &mut Rng) -> Vec<u8> {
+    let files: [&[u8]; 14] = [b"bin/foo", b"a", b"b", b"man/man1/x.1", b"\xa0", b"\x85x", b"caf\xe9", b"x y", b"\xc3\xa0", b"+BUILD_INFO", b"lib/\xf8", b"\x0b", b"z\xa0", b"1"];
+    let cmds: [&[u8]; 22] = [b"@cwd", b"@src", b"@cd", b"@exec", b"@unexec", b"@option", b"@mode", b"@owner", b"@group", b"@comment", b"@ignore",
+        b"@name", b"@pkgdep", b"@blddep", b"@pkgcfl", b"@pkgdir", b"@dirrm", b"@display", b"@bogus", b"@", b"@ignore", b"@cwd"];
+    let args: [&[u8]; 16] = [b"", b" /opt/pkg", b" /opt/pkg/", b" preserve", b" 0644", b"  two  words", b" \xa0dir", b" caf\xe9/", b" \xf0\x9f\x92\x96", b" ",
+        b" \t x", b" root", b" pkg-1.0", b" \x85", b" dep>=1", b" /"];
+    let blanks: [&[u8]; 7] = [b"", b" ", b"\t", b"  \t ", b"\r", b" \x0c", b"\x0b"];
+    match r.below(10) {
+        0 | 1 => r.pick(&blanks).to_vec(),
+        2 | 3 | 4 => r.pick(&files).to_vec(),
+        5 => {
+            let mut v = r.pick(&blanks).to_vec();
+            v.extend_from_slice(r.pick(&files));
+            v
+        }
+        _ => {
+            let mut v = r.pick(&cmds).to_vec();
+            v.extend_from_slice(r.pick(&args));
+            v
+        }
+    }
+}
+fn gen_plist(r: &mut Rng, valid_only: bool) -> Vec<u8> {
+    let n = r.below(8);
+    let mut t = vec![];
+    for i in 0..n {
+        let mut l = gen_plist_line(r);
+        if valid_only && l.iter().any(|&c| !is_ws(c)) && plist_entry(&l).is_none() {
+            l = b"bin/ok".to_vec();
+        }
+        t.extend_from_slice(&l);
+        if i + 1 < n || r.below(2) == 0 {
+            t.push(b'\n');
+        }
+    }
+    t
+}
+fn search_c14(r: &mut Rng, iters: usize) -> bool {
+    for it in 0..iters {
+        // single lines
+        let l = gen_plist_line(r);
+        if !l.contains(&b'\n') {
+            let e = plist_entry(&l);
+            let a = PlistEntry::from_bytes(&l).ok();
+            if e != a {
+                witness("plist_entry", &[("hexline", hex(&l))], &format!("{:?}", e), &format!("{:?}", a));
+                return false;
+            }
+        }
+        let t = gen_plist(r, it % 3 != 0);
+        let e = plist_entries(&t).map(|v| format!("Plist {{ entries: {:?} }}", v));
+        let a = Plist::from_bytes(&t).ok().map(|p| format!("{:?}", p));
+        if e != a {
+            witness("plist", &[("hextext", hex(&t))], &format!("{:?}", e), &format!("{:?}", a));
+            return false;
+        }
+    }
+    true
+}
+fn plist_views(es: &[PlistEntry]) -> String {
+    let kept = kept_files(es);
+    let files: Vec<OsString> = kept.iter().map(|&i| if let PlistEntry::File(f) = &es[i] { f.clone() } else { unreachable!() }).collect();
+    let mut prefixed = vec![];
+    for &i in &kept {
+        let mut cwd: Vec<u8> = vec![];
+        for e in &es[..i] {
+            if let PlistEntry::Cwd(d) = e {
+                cwd = d.as_bytes().to_vec();
+            }
+        }
+        if cwd.last() != Some(&b'/') {
+            cwd.push(b'/');
+        }
+        if let PlistEntry::File(f) = &es[i] {
+            cwd.extend_from_slice(f.as_bytes());
+        }
+        prefixed.push(OsString::from_vec(cwd));
+    }
+    let mut ignore = false;
+    let mut inst = vec![];
+    let mut uninst = vec![];
+    for e in es {
+        match e {
+            PlistEntry::Ignore => ignore = true,
+            PlistEntry::File(_) => {
+                if !ignore {
+                    inst.push(e);
+                    uninst.push(e);
+                }
+                ignore = false;
+            }
+            PlistEntry::Cwd(_) | PlistEntry::Mode(_) | PlistEntry::Owner(_) | PlistEntry::Group(_) | PlistEntry::PkgDir(_) => {
+                inst.push(e);
+                uninst.push(e);
+            }
+            PlistEntry::Exec(_) => inst.push(e),
+            PlistEntry::UnExec(_) | PlistEntry::DirRm(_) => uninst.push(e),
+            _ => {}
+        }
+    }
+    let deps: Vec<&str> = es.iter().filter_map(|e| if let PlistEntry::PkgDep(s) = e { Some(s.as_str()) } else { None }).collect();
+    let bdeps: Vec<&str> = es.iter().filter_map(|e| if let PlistEntry::BldDep(s) = e { Some(s.as_str()) } else { None }).collect();
+    let cfl: Vec<&str> = es.iter().filter_map(|e| if let PlistEntry::PkgCfl(s) = e { Some(s.as_str()) } else { None }).collect();
+    let dirs: Vec<&OsString> = es.iter().filter_map(|e| if let PlistEntry::PkgDir(s) = e { Some(s) } else { None }).collect();
+    let rmdirs: Vec<&OsString> = es.iter().filter_map(|e| if let PlistEntry::DirRm(s) = e { Some(s) } else { None }).collect();
+    let name = es.iter().find_map(|e| if let PlistEntry::Name(s) = e { Some(s.as_str()) } else { None });
+    let disp = es.iter().find_map(|e| if let PlistEntry::Display(s) = e { Some(s) } else { None });
+    let pres = es.iter().any(|e| matches!(e, PlistEntry::PkgOpt(_)));
+    format!("files={:?} prefixed={:?} install={:?} uninstall={:?} depends={:?} build_depends={:?} conflicts={:?} pkgdirs={:?} pkgrmdirs={:?} pkgname={:?} display={:?} preserve={}",
+        files, prefixed, inst, uninst, deps, bdeps, cfl, dirs, rmdirs, name, disp, pres)
+}
+fn real_plist_views(p: &Plist) -> String {
+    format!("files={:?} prefixed={:?} install={:?} uninstall={:?} depends={:?} build_depends={:?} conflicts={:?} pkgdirs={:?} pkgrmdirs={:?} pkgname={:?} display={:?} preserve={}",
+        p.files(), p.files_prefixed(), p.install_cmds(), p.uninstall_cmds(), p.depends(), p.build_depends(), p.conflicts(), p.pkgdirs(), p.pkgrmdirs(), p.pkgname(), p.display(), p.is_preserve())
+}
+fn search_c15(r: &mut Rng, iters: usize) -> bool {
+    for _ in 0..iters {
+        let t = gen_plist(r, true);
+        let (Some(es), Ok(p)) = (plist_entries(&t), Plist::from_bytes(&t)) else { continue };
+        let e = plist_views(&es);
+        let a = real_plist_views(&p);
+        if e != a {
+            witness("plist_views", &[("hextext", hex(&t))], &e, &a);
+            return false;
+        }
+    }
+    true
+}
+fn unhexb(s: &str) -> Vec<u8> {
+    (0..s.len() / 2).map(|i| u8::from_str_radix(&s[2 * i..2 * i + 2], 16).unwrap()).collect()
+}
+
 fn unhex(s: &str) -> String {
     let b: Vec<u8> = (0..s.len() / 2).map(|i| u8::from_str_radix(&s[2 * i..2 * i + 2], 16).unwrap()).collect();
     String::from_utf8_lossy(&b).into_owned()
@@ -456,6 +614,12 @@ fn run_witness(args: &[String]) -> i32 {
             format!("{}|{}", pn.pkgbase(), pn.pkgversion())
         }
         "pkgrevision" => format!("{:?}", PkgName::new(&g("name")).pkgrevision()),
+        "plist_entry" => format!("{:?}", PlistEntry::from_bytes(&unhexb(&g("hexline"))).ok()),
+        "plist" => format!("{:?}", Plist::from_bytes(&unhexb(&g("hextext"))).ok().map(|p| format!("{:?}", p))),
+        "plist_views" => match Plist::from_bytes(&unhexb(&g("hextext"))) {
+            Ok(p) => real_plist_views(&p),
+            Err(_) => "parse-error".into(),
+        },
         "order_law" => {
             // re-evaluate the law on the real code
             let mut r = Rng::new(1);
@@ -509,6 +673,8 @@ fn main() {
                 "C05" => search_c05(&mut r, la, iters),
                 "C06" => search_c06(&mut r, la, iters),
                 "C18" => search_c18(&mut r, la, iters),
+                "C14" => search_c14(&mut r, iters),
+                "C15" => search_c15(&mut r, iters),
                 _ => {
                     println!("no searcher for {}", pid);
                     true
